@@ -705,6 +705,12 @@ def check(F, run, tier):
     run.add(c19.convert_to_upper(F))
     run.add(c19.extension_matches(F))
     run.add(resource_stream(F, S))
+    from ..rules_archive import observers_keep_no_state
+    lk = [F.fn(ARC + "::Contains", nparams=1), F.fn(ARC + "::GetIndex", nparams=1)]
+    lk += [F.functions[k] for k in sorted(F.overriders.get(lk[1].key, ())) if k in F.functions]
+    _ok, _nk = observers_keep_no_state(F, S, lk, "a name lookup")
+    run.add(_ok)
+    run.floor("R-WRITESET(lookups)", _nk, 2)
     o_, n_ = lookups_are_stateless(F, S)
     run.add(o_)
     run.floor("manager-operations", n_, 8)
